@@ -331,7 +331,11 @@ func (w *World) verifyUnit(fn *ssa.Function, defaultSafety []string) *UnitResult
 		for _, c := range con.Ensures {
 			ts, ls := e.conjuncts(env, c.Expr, "")
 			for i := range ts {
+				n0 := len(e.obs)
 				e.ob(fr, "post", c.clabel(ls[i]), c.tagsOr(tags), rpc, ts[i], fn.Pos())
+				if len(e.obs) > n0 {
+					e.obs[len(e.obs)-1].clause = c
+				}
 			}
 		}
 	}
